@@ -10,6 +10,15 @@ From CTM Require Import Base.Sx Base.ListX Model.Sparse Model.Transpose
   Proofs.TransposeParP Proofs.SparseCscP.
 Import ListNotations.
 
+(* audit 3, item 11: the value array of the result is what the model says only when no
+   (row, column) pair is stored twice.  The real function orders the entries of an output
+   row with np.argsort(this_index) (csc_to_csr.py:229, 272), which is not stable above 16
+   elements: exact duplicates keep their indices (equal) but their VALUES come out in an
+   order that depends on the chunking, hence on the worker count.  The model's sort is
+   stable.  data_ok is the guard the value-carrying statements take; without a value array
+   nothing depends on it. *)
+Definition data_ok (m : comp) (ud : bool) : Prop := ud = true -> no_dup_minor m.
+
 (* a slice handed to transpose_sparse_matrix_on_disk: lo <= hi (np.zeros(hi - lo)) *)
 Definition slice_ok (sl : option (nat * nat)) : Prop :=
   forall s, sl = Some s -> fst s <= snd s.
@@ -39,6 +48,7 @@ Qed.
 Theorem transpose_full_guarded m nmaj ud imax sl E L Lc :
   wf_comp m imax -> length (ptr m) = S nmaj ->
   (ud = true -> length (dat m) = length (idx m)) ->
+  data_ok m ud ->
   slice_ok sl ->
   1 <= L -> 1 <= Lc ->
   exists t, transpose m ud imax sl E L Lc = Ok t /\
@@ -57,17 +67,17 @@ Theorem transpose_full_guarded m nmaj ud imax sl E L Lc :
        (forall r j, r < n_out -> j < nmaj -> cell out r j = cell m j (slice_lo sl + r)) /\
        dense_of out n_out nmaj =
        map (fun r => map (fun j => cell m j (slice_lo sl + r)) (seq 0 nmaj)) (seq 0 n_out)).
-Proof. intros W HP HD _ HL HLc. exact (transpose_full m nmaj ud imax sl E L Lc W HP HD HL HLc). Qed.
+Proof. intros W HP HD _ _ HL HLc. exact (transpose_full m nmaj ud imax sl E L Lc W HP HD HL HLc). Qed.
 
 Theorem transpose_exact_guarded m ud imax sl E L Lc :
-  wf_ptr m -> slice_ok sl ->
+  wf_ptr m -> data_ok m ud -> slice_ok sl ->
   1 <= L -> 1 <= Lc ->
   (ud = true -> length (dat m) = length (idx m)) ->
   (sl = None -> Forall (fun r => r < imax) (idx m)) ->
   exists t, transpose m ud imax sl E L Lc = Ok t /\
             t_out t = transpose_spec m ud imax sl /\
             chained 0 (t_blocks t) (n_out_of imax sl).
-Proof. intros _ _. exact (transpose_exact m ud imax sl E L Lc). Qed.
+Proof. intros _ _ _. exact (transpose_exact m ud imax sl E L Lc). Qed.
 
 Theorem transpose_empty_slice_guarded m ud imax sl E L Lc :
   slice_ok sl ->
@@ -145,17 +155,18 @@ Qed.
 
 (* ---------------------------------------------------------------- parallel version: value clause *)
 Theorem transpose_v2_guarded m ud imax np E L Lc :
-  wf_ptr m ->
+  wf_ptr m -> data_ok m ud ->
   1 <= np -> 1 <= L -> 1 <= Lc -> (ud = true -> length (dat m) = length (idx m)) ->
   Forall (fun r => r < imax) (idx m) ->
   transpose_v2 m ud imax np E L Lc = Ok (transpose_spec m ud imax None).
-Proof. intros _. exact (transpose_v2_exact m ud imax np E L Lc). Qed.
+Proof. intros _ _. exact (transpose_v2_exact m ud imax np E L Lc). Qed.
 
 (* under wf_comp the parallel result is a well-formed compressed matrix whose dense view
    is the transpose of the dense view of the input, whatever the worker count and budgets *)
 Theorem transpose_v2_full m nmaj ud imax np E L Lc :
   wf_comp m imax -> length (ptr m) = S nmaj ->
   (ud = true -> length (dat m) = length (idx m)) ->
+  data_ok m ud ->
   1 <= np -> 1 <= L -> 1 <= Lc ->
   exists out, transpose_v2 m ud imax np E L Lc = Ok out /\
     (exists t, transpose m ud imax None E L Lc = Ok t /\ t_out t = out) /\
@@ -172,7 +183,7 @@ Theorem transpose_v2_full m nmaj ud imax np E L Lc :
        dense_of out imax nmaj =
        map (fun r => map (fun j => cell m j r) (seq 0 nmaj)) (seq 0 imax)).
 Proof.
-  intros W HP HD Hnp HL HLc. pose proof W as (_ & _ & _ & HF).
+  intros W HP HD _ Hnp HL HLc. pose proof W as (_ & _ & _ & HF).
   destruct (transpose_full m nmaj ud imax None E L Lc W HP HD HL HLc) as (t & EQ & Ht).
   cbn zeta in Ht. cbn [n_out_of slice_lo Nat.add apply_slice] in Ht.
   destruct Ht as (EO & _ & P0 & PM & PL & PLast & PN & PS & PD).
